@@ -750,7 +750,10 @@ pub fn fvar_driver(data: &[u8], ctx: &[Vec<u8>], a: [u32; 3], w: &mut Walker) {
             }
             let tags: Vec<Tag> = axes.iter().take(8).map(|a| a.axis_tag()).collect();
             for val in [i32::MIN, 0, 400 << 16, i32::MAX] {
-                for len in [0usize, 1, axes.len().min(64), axes.len().min(64) + 1] {
+                // coordinate buffers around the 64-entry avar2 scratch array and of the font's own axis count
+                let mut lens = vec![0usize, 1, 64, 65, axes.len().min(512)];
+                lens.dedup();
+                for len in lens {
                     let mut out = vec![F2Dot14::default(); len];
                     let user: Vec<(Tag, Fixed)> = tags
                         .iter()
